@@ -28,6 +28,27 @@ def op_to_calls(op, path):
     return lib, ker
 
 
+UNPRIV = 65534
+
+
+def tree_nodes(t):
+    """pv nodes of a model tree; directories marked nx (not searchable for the caller) are rwxr--r-- and root's"""
+    out = []
+    for n in t["nodes"]:
+        d = node_to_pv(n)
+        if n.get("nx"):
+            d["mode"] = 0o744
+        out.append(d)
+    return out
+
+
+def calls_for(t, c):
+    lib, ker = op_to_calls(c["op"], join_path(c["path"]))
+    if any(n.get("nx") for n in t["nodes"]):
+        lib, ker = dict(lib, euid=UNPRIV), dict(ker, euid=UNPRIV)
+    return lib, ker
+
+
 def kernel_as_outcome(op, kres, bodies):
     """turn the raw openat2 reference result into the outcome the op should have"""
     o = lib_outcome(kres)
@@ -71,7 +92,8 @@ def run(prop, tier_, cfg, sample=None, jobs=12, bind_budget=False):
     pv_cases, index = [], []
     B = 150
     for tname, cs in by_tree.items():
-        nodes = [node_to_pv(n) for n in trees[tname]["nodes"]]
+        nodes = tree_nodes(trees[tname])
+        unpriv = any(n.get("nx") for n in trees[tname]["nodes"])      # a tree with unsearchable directories is walked by uid 65534
         for b0 in range(0, len(cs), B):
             chunk = cs[b0:b0 + B]
             for bname, feat in FEATS:
@@ -81,6 +103,8 @@ def run(prop, tier_, cfg, sample=None, jobs=12, bind_budget=False):
                     # every third case goes through the C ABI (pathrs_inroot_resolve / _resolve_nofollow / _open / _readlink)
                     if qi % 3 == 2 and not lib.get("nosym"):     # (the C ABI has no resolver flags)
                         lib = dict(lib, api="c")
+                    if unpriv:
+                        lib, ker = dict(lib, euid=UNPRIV), dict(ker, euid=UNPRIV)
                     calls.append(lib)
                     if bname == "kernel":
                         calls.append(ker)
@@ -108,8 +132,8 @@ def run(prop, tier_, cfg, sample=None, jobs=12, bind_budget=False):
         stats["eagain_reruns"] += len(again)
         pv2, idx2 = [], []
         for c in again:
-            nodes = [node_to_pv(n) for n in trees[c["tree"]]["nodes"]]
-            lib, ker = op_to_calls(c["op"], join_path(c["path"]))
+            nodes = tree_nodes(trees[c["tree"]])
+            lib, ker = calls_for(trees[c["tree"]], c)
             pv2.append(dict(id="rerun", tree=nodes, feat=FEATS[0][1], trace=False, calls=[lib, ker]))
             idx2.append((c["tree"], "kernel", [c]))
         collect(idx2, run_pv(pv2, jobs=1, tag=prop + "r"), per_case)
@@ -120,8 +144,8 @@ def run(prop, tier_, cfg, sample=None, jobs=12, bind_budget=False):
     rc_cases = list(cases)       # resolve / resolve_nofollow / open_subpath / readlink, with and without NO_SYMLINKS
     rnd.shuffle(rc_cases)
     # three of four on the emulated backend (the step machine), one of four on the openat2 backend (K_Openat2)
-    tcases = [dict(id="conf|%d" % i, tree=[node_to_pv(n) for n in trees[c["tree"]]["nodes"]], feat={"openat2": i % 4 == 3}, trace=True, raw=False,
-                   calls=[op_to_calls(c["op"], join_path(c["path"]))[0]]) for i, c in enumerate(rc_cases[:400 if sample else 4000])]
+    tcases = [dict(id="conf|%d" % i, tree=tree_nodes(trees[c["tree"]]), feat={"openat2": i % 4 == 3}, trace=True, raw=False,
+                   calls=[calls_for(trees[c["tree"]], c)[0]]) for i, c in enumerate(rc_cases[:400 if sample else 4000])]
     tcases.sort(key=lambda c: c["feat"]["openat2"])
     tres = run_pv(tcases, jobs=jobs, tag=prop + "c")
     conf = lookup_conformance(tcases, tres)
@@ -216,8 +240,8 @@ def evaluate(per_case, trees, v, stats, samples, bind_budget=False, flags_too=Fa
                        nofollow=c["op"]["nofollow"], nosym=c["op"]["nosym"], got=list(got), want=list(truth))
             desc = "%s backend: %s(%r) on tree %s gave %s, kernel in-root resolution gives %s (model oracle: %s)" % (
                 bname, c["op"], path, c["tree"], got, truth, expect)
-            replay = dict(id="replay", tree=[node_to_pv(n) for n in trees[c["tree"]]["nodes"]], feat=dict(FEATS)[bname], trace=False,
-                          calls=list(op_to_calls(c["op"], path)) if bname == "kernel" else [op_to_calls(c["op"], path)[0]],
+            replay = dict(id="replay", tree=tree_nodes(trees[c["tree"]]), feat=dict(FEATS)[bname], trace=False,
+                          calls=list(calls_for(trees[c["tree"]], c)) if bname == "kernel" else [calls_for(trees[c["tree"]], c)[0]],
                           expect=list(truth))
             # known-finding signatures ignore the tree: match on path/op/backend
             v.violation(sig, desc, replay)
